@@ -47,3 +47,17 @@ Definition bead_key_error (b : bead) : bool :=
   b_use_cw b && existsb (fun c => match c_cw c with None => true | Some _ => false end) (b_graph b).
 Definition molecule_positions (bs : list bead) : list result :=
   if existsb bead_key_error bs then map (fun _ => RKeyError) bs else map (fun b => mean (terms b)) bs.
+
+(* Particles that represent no atoms (no 'graph' attribute: virtual sites and the like). The processor runs with
+   ignore_missing_graphs=True: such a particle is left alone — whatever position it had stays — and it does not disturb
+   the others (l.66-97: the centre-weight check and the averaging loop both skip it). *)
+Inductive particle := PBead (b : bead) | PNoGraph.
+Inductive presult := PRes (r : result) | PUntouched.
+
+Definition particle_key_error (p : particle) : bool := match p with PBead b => bead_key_error b | PNoGraph => false end.
+Definition particles_positions (ps : list particle) : list presult :=
+  if existsb particle_key_error ps then map (fun _ => PRes RKeyError) ps
+  else map (fun p => match p with PBead b => PRes (mean (terms b)) | PNoGraph => PUntouched end) ps.
+
+Definition beads_of (ps : list particle) : list bead := flat_map (fun p => match p with PBead b => [b] | PNoGraph => [] end) ps.
+Definition results_of (rs : list presult) : list result := flat_map (fun r => match r with PRes x => [x] | PUntouched => [] end) rs.
